@@ -26,6 +26,13 @@ def run(ck: Check):
         if len(tc[1]) >= 2:
             for cfg in ({}, {"repeat": "always"}):
                 ex.dfs("minimize-balanced", cfg, tc, stream="balanced", max_runs=60 if quick else 400)
+    # a time limit that never passes (scripted clock stands still, limit 10^6 s) changes nothing: the fixpoint is
+    # still reached
+    for strategy in ("minimize-around", "minimize-balanced"):
+        for tc in small_layouts(4 if quick else 5, alphabet=BR[:4], with_nonred=False):
+            if len(tc[1]) >= 3:
+                ex.dfs(strategy, {"limit": 1000000}, tc, stream="far-deadline", max_runs=25 if quick else 200,
+                       clock=[1700000000] * 50)
     # atoms that close one kind of bracket and open another (per-kind balances cancel numerically)
     MIX = [b"x\n", b")[\n", b"](\n", b"){\n", b"}(\n", b"(\n", b"]\n"]
     for tc in small_layouts(3 if quick else 4, alphabet=MIX[: (5 if quick else 7)], with_nonred=False):
